@@ -218,10 +218,46 @@ def job_reuse(item):
     S.absorb_engine(eng)
     return S
 
+def job_dropped(item):
+    """compile(e1), search, DROP the expression, compile(e2), search: the second result is the function specification's, whatever the first expression was. Objects of a
+    dropped expression may be re-allocated at the same addresses (addresses are symbolic words, distinct only among live objects), so state keyed by an address is exposed."""
+    e1, e2, deadline = item
+    from . import funcs as F, funcjob as FJ
+    import re as _re
+    prog = PROG; eng = Engine(prog); eng.deadline = deadline; S = Summary(); XP.init_decls(prog)
+    DOC = [{'a': 2, 'b': 1}, {'a': 1, 'b': 2}]
+    def expected(e):
+        m_ = _re.fullmatch(r'(\w+)\((@|&\w+), (@|&\w+)\)', e)
+        vals = [DOC if t == '@' else ('expref', t) for t in m_.group(2, 3)]
+        return F.spec(m_.group(1), vals)[:2]
+    def body(ex):
+        doc = lambda: Ptr(Cell(MM.py_to_variable(DOC)), 'rc')
+        c1 = ex.call('compile', [Ptr(Cell(rstr(e1)))]); x1 = Cell(c1.fields[0].v)
+        ex.call('Expression::search', [Ptr(x1), doc()])
+        ex.drop_value(x1, 0); x1.v = None                          # the first expression is gone; its memory may be handed out again
+        c2 = ex.call('compile', [Ptr(Cell(rstr(e2)))])
+        r = ex.call('Expression::search', [Ptr(Cell(c2.fields[0].v)), doc()])
+        k, want = expected(e2)
+        if r.variant != 'Ok': return None if k == 'err' else f'{e2} after {e1} was compiled, searched and dropped: fails'
+        got = MM.variable_to_py(ex, r.fields[0].v)
+        return None if (k == 'ok' and FJ.result_matches(got, want)) else f'{e2} after {e1} was compiled, searched and dropped: returns {got!r}, specification {want!r}'
+    def on_path(ex, r):
+        S['paths'] += 1; S['outcomes'][r[0]] += 1
+        if r[0] == 'unsupported': S.inconclusive(f'dropped ({e1!r},{e2!r}): ' + XP.short_unsupported(r[1])); return
+        if r[0] != 'ok': return
+        if r[1] is None: S['vacuity']['dropped agrees'] = True; return
+        d = FJ.tag_py(DOC)
+        S.cand('c13:history-dependent', r[1], {'e1': e1, 'e2': e2, 'd1': d, 'd2': d},
+               {'op': 'seq', 'reqs': [{'op': 'search_default', 'expr': e2, 'doc': d}, {'op': 'search_default', 'expr': e1, 'doc': d}, {'op': 'search_default', 'expr': e2, 'doc': d}]}, expected='first and last outcome identical')
+    n, rest = eng.explore(body, on_path, max_paths=500)
+    if rest: S.inconclusive(f'dropped ({e1!r},{e2!r}): cap/deadline after {n} paths')
+    S.absorb_engine(eng)
+    return S
+
 REUSE = ['[`1`, `2`]', '{a: `1`}', '`1`', "'x'", 'a', '[a, b]', '@', 'length(@)', 'a || `1`', '[?a]', '*', 'a == b', '!@', 'type(@)', '[0]', '[::-1]', 'not_null(a, b)', '{x: a, y: @}', '[abs(a), a]', 'a[*].abs(@)', 'abs(a) == b']
 
 def task(item):
-    return {'variant': job_variant, 'reuse': job_reuse}.get(item[0], job_seq)(item[1:])
+    return {'variant': job_variant, 'reuse': job_reuse, 'dropped': job_dropped}.get(item[0], job_seq)(item[1:])
 
 def confirm(c, nd, nr):
     if c['key'] == 'c13:hidden-state-drifts':
@@ -264,6 +300,7 @@ def run(run):
     jobs += [('seq', e1, v, 1, dl) for e1 in dict.fromkeys(ws) for v in (' ' + e1, e1 + ' ', '\u00a0' + e1, '\n  ' + e1 + '\n')]
     # the same body under different delimiters in two compilations: a text-keyed cache below the parser (lexer level) must not confuse them
     jobs += [('seq', e1, e2, 1, dl) for e1, e2 in (('"1"', '`1`'), ('`1`', '"1"'), ('`true`', '"true"'), ('"null"', '`null`'), ("'1'", '`1`'), ('`"a"`', '"a"'), ("a == '1'", 'a == `1`'))]
+    jobs += [('dropped', a_, b_, dl) for a_, b_ in (('sort_by(@, &a)', 'sort_by(@, &b)'), ('map(&a, @)', 'map(&b, @)'), ('max_by(@, &b)', 'max_by(@, &a)'), ('sort_by(@, &b)', 'min_by(@, &a)'))]
     jobs += [('reuse', e, dl) for e in (REUSE[:10] + REUSE[-3:] if quick else REUSE)]
     jobs += [('variant', e, 1 if '==' in e else 2, dl) for e in (['a', 'a[0]', 'to_string(a)', 'a[*].b', '@', 'type(a)', '[a, b]', 'a || b'] if quick else EXPRS)]
     run.bounds = {'call sequences': f'compile(e1); search(d1); compile(e2); search(d2) [may fail midway]; compile(e1) again; clone; search(d1) twice -- for {len(e1s)} x {len(e2s)} expression pairs (core forms and built-ins), '
